@@ -64,7 +64,12 @@ func (in *Interp) userContext(th *Thread) bool {
 		}
 		if p != nil {
 			switch p.Pkg.Path() {
-			case "sync", "sync/atomic", "go.uber.org/atomic":
+			case "go.uber.org/atomic":
+				if strings.HasPrefix(fn.Name(), "New") {
+					return false // initialising store of a constructor: the object is not shared yet
+				}
+				continue
+			case "sync", "sync/atomic":
 				continue
 			}
 			return in.coapPkgs[p]
